@@ -978,10 +978,11 @@ class ArgumentParser(ParserDeprecations, ActionsContainer, ArgumentLinking, argp
             files = sorted(glob.glob(os.path.expanduser(pattern)))
             default_config_files += [(None, x) for x in files]
 
-        if len(default_config_files) > 0:
+        readable_files = []
+        for key, file in default_config_files:
             with suppress(TypeError):
-                return [(k, Path(v, mode=get_config_read_mode())) for k, v in default_config_files]
-        return []
+                readable_files.append((key, Path(file, mode=get_config_read_mode())))
+        return readable_files
 
     def get_default(self, dest: str) -> Any:
         """Gets a single default value for the given destination key.
